@@ -333,6 +333,17 @@ func genNetEvent(t *rapid.T, n *model.Net) (netEvent, bool) {
 			mc := model.ModeChange{On: rapid.Bool().Draw(t, "on")}
 			kind := rapid.IntRange(0, 9).Draw(t, "mode_kind")
 			switch {
+			case kind <= 2 && rapid.IntRange(0, 3).Draw(t, "foreign_mode") == 0:
+				// channel modes of particular ircds that the tracker does not model: flags without an
+				// argument in either direction (c C R M S T u N g), and modes whose argument exists only when
+				// they are set (j f L J), generated as removals only - so no argument here either. They
+				// must leave the rest of the line's changes, and their arguments, alone.
+				if rapid.Bool().Draw(t, "foreign_set_only") {
+					mc.On = false
+					mc.Letter = rapid.SampledFrom([]byte{'j', 'f', 'L', 'J'}).Draw(t, "foreign_letter")
+				} else {
+					mc.Letter = rapid.SampledFrom([]byte{'c', 'C', 'R', 'M', 'S', 'T', 'u', 'N', 'g'}).Draw(t, "foreign_flag")
+				}
 			case kind <= 2:
 				mc.Letter = rapid.SampledFrom(model.FlagLetters).Draw(t, "flag")
 			case kind == 3 && !keyRemoved && envInt("VERIF_C13_NO_MIXED_LIST", 0) == 0:
